@@ -26,11 +26,17 @@ work-package).  Undefined-behaviour sources of the C++ and where they are:
 
 The mutating operations have no `ub` outcome on ANY state (first theorem).  The
 ordered queries need the chain invariant `R` of Proofs/Chain.lean for both
-tables and the forest shape; that these hold on every state reachable through
-`step` is the subject of C09 / C11 (crates-2.x work-package, `ChInv` / `PlInv`)
-and is a hypothesis here, evaluated on the real tables by the tie (`wfRaw`).
+tables and the forest shape (`v2c_C15_queries_no_ub`); that these hold on every
+state reachable through the public API is proved by the crates-2.x work-package
+(`Inv` = `ChInv` ∧ `PlInv` ∧ `MemInv`, Proofs/V2Members.lean, `inv_run`) and is
+used for `v2c_C15_reachable_queries_no_ub`.  Histories that also use the three
+table-level `playlist_entity_table` operations with non-positive track ids are
+outside (recorded finding of C09: the schema's delete trigger does not re-link
+such entries, after which `get_for_list` has no tail — see
+`v2c_C15_table_level_counterexample`).
 -/
 import Proofs.NoUbCratesV2
+import Proofs.V2WfRaw
 
 namespace EngineModel.Properties.C15CratesV2
 open EngineModel EngineModel.Db.Chain EngineModel.Db.V2 EngineModel.Api.GuardedV2
@@ -73,6 +79,22 @@ theorem v2c_C15_ordered_queries_no_ub (d : Db) {A B : Int → List Int} (hpl : R
   · simp [qChildren, walkIds, h1, Res.bind]
   · simp [qTracks, h2, Res.bind]
   · simp [qEntities, h2, Res.bind]
+
+/-- **Reachable states**: after any history of public-API operations (crate, membership, track
+operations with any arguments) from the empty library, every query — for any crate id or name,
+existing or not — is a value or an exception and terminates. -/
+theorem v2c_C15_reachable_queries_no_ub (ops : List Op) (hapi : ops.all apiOp = true) (q : Query) (u : Ub) :
+    queryG (run Db.empty ops) q ≠ .ub u := by
+  have hI := inv_run inv_empty ops hapi
+  exact queryG_defined _ hI.ch.rk hI.ch.re (forestOk_of_plInv hI.pl) q u
+
+/-- The restriction to the public API is needed: at table level (`playlist_entity_table`, reachable
+only by code that bypasses `crate`) entries with a non-positive track id are not re-linked by the
+schema's delete trigger, and listing the playlist then dereferences a missing tail. -/
+theorem v2c_C15_table_level_counterexample :
+    qEntities (run Db.empty [.peAddBack 3 2 false, .peAddBack 3 3 false, .peAddBack 3 0 false, .peRemove 3 3]) 3 =
+      .ub .oob_read := by
+  decide +kernel
 
 /-- **Stale crate handle**: after `remove_crate(c)` — from any state — `c.is_valid()` is false,
 `name()` / `parent()` throw `crate_deleted`, every mutation through the handle throws, and removing it
